@@ -77,6 +77,9 @@ where
 
     if !is_eol {
         len += read_line(reader, definition.description_mut())?;
+    } else if definition.name().ends_with(&[CARRIAGE_RETURN]) {
+        // The carriage return of a CRLF pair may have been delivered in an earlier chunk.
+        definition.name_mut().pop();
     }
 
     Ok(len)
